@@ -173,6 +173,13 @@ Fixpoint tree_has_dollar (t : tree) : bool :=
                    end) kvs
   end.
 
+(* the text is exactly one reference: dollar, word character, then word characters / square brackets *)
+Definition is_plain_reference (s : str) : bool :=
+  match find_reference [] s with
+  | Some ([], _, []) => true
+  | _ => false
+  end.
+
 Inductive rres := RNone | RVal (t : tree) | ROutside | RFuel.
 
 (* number of nodes and characters of a variable table: bounds the number of distinct values the resolver can meet *)
@@ -211,6 +218,8 @@ Fixpoint resolve_ref (fuel : nat) (vars : vtab) (seen : list str) (reference : s
                          let r2 := py_str_tree t in
                          (* repaired: a reference text that was tried before is unresolvable *)
                          if existsb (str_eqb r2) tried then (RNone, last_ref) else
+                         (* repaired: only a plain reference is followed; an expression text has no value yet *)
+                         if negb (is_plain_reference r2) then (RNone, last_ref) else
                          match resolve_ref f vars seen' r2 with
                          | RVal t' => chase g' (Some t') (Some r2) (r2 :: tried)
                          | RNone => (RNone, Some r2)
@@ -221,7 +230,6 @@ Fixpoint resolve_ref (fuel : nat) (vars : vtab) (seen : list str) (reference : s
                    end
                end) (S (vars_size vars)) (Some v0) None [] in
           let '(val, last_ref) := chased in
-          let name' := match last_ref with Some r2 => ref_name r2 | None => name end in
           match val with
           | RFuel => RFuel
           | ROutside => ROutside
@@ -232,9 +240,10 @@ Fixpoint resolve_ref (fuel : nat) (vars : vtab) (seen : list str) (reference : s
                   match parse_indices (S (length indexing)) indexing with
                   | None => ROutside
                   | Some idx =>
-                      match alookup (KS name') vars with
-                      | Some base => match index_tree base idx with Some t => RVal t | None => val end
-                      | None => val
+                      (* repaired: the index applies to the value the chain ends in *)
+                      match val with
+                      | RVal t => match index_tree t idx with Some t' => RVal t' | None => val end
+                      | _ => val
                       end
                   end
               end
